@@ -29,6 +29,7 @@ package webtransport
 //@ define be64(r io.Reader, p int) int = inbyte(r, p) * 72057594037927936 + inbyte(r, p+1) * 281474976710656 + inbyte(r, p+2) * 1099511627776 + inbyte(r, p+3) * 4294967296 + inbyte(r, p+4) * 16777216 + inbyte(r, p+5) * 65536 + inbyte(r, p+6) * 256 + inbyte(r, p+7)
 //@ define wtlen(r io.Reader, p int) int = wtlow(r, p) < 126 ? wtlow(r, p) : (wtlow(r, p) == 126 ? inbyte(r, p+1) * 256 + inbyte(r, p+2) : be64(r, p+1))
 //@ define wtbin(r io.Reader, p int) bool = inbyte(r, p) >= 128
+//@ define wrapint(x int) int = x >= 9223372036854775808 ? x - 18446744073709551616 : x
 
 //@ func nextPacket
 //@   requires r != nil && 0 <= inpos(r)
@@ -44,7 +45,7 @@ package webtransport
 //@   loop 0 invariant state == 0 ==> inpos(r) == old(inpos(r)) + 1
 //@   loop 0 invariant state == 1 ==> inpos(r) == old(inpos(r)) + 1 && wtlow(r, old(inpos(r))) == 126 && isBinary == wtbin(r, old(inpos(r)))
 //@   loop 0 invariant state == 2 ==> inpos(r) == old(inpos(r)) + 1 && wtlow(r, old(inpos(r))) == 127 && isBinary == wtbin(r, old(inpos(r)))
-//@   loop 0 invariant state == 3 ==> inpos(r) == old(inpos(r)) + wthl(r, old(inpos(r))) && expectedLen == wtlen(r, old(inpos(r))) && isBinary == wtbin(r, old(inpos(r))) [C11.wt.next.inv.len]
+//@   loop 0 invariant state == 3 ==> inpos(r) == old(inpos(r)) + wthl(r, old(inpos(r))) && expectedLen == wrapint(wtlen(r, old(inpos(r)))) && isBinary == wtbin(r, old(inpos(r))) [C11.wt.next.inv.len]
 
 // L5: a packet of any length survives the WebTransport framing. One lemma per header form; together they cover
 // every length (the boundaries 125/126 and 65535/65536 are the case boundaries).
